@@ -27,7 +27,8 @@ PASSWORDS = [b'', b'0123456789abcdefXYZ', b'\xff\xfe' + b'k' * 20, '0123456789ab
 def rule_dominance(report, prog):
     f = prog.func(SONY + '.FelicaLite.read_with_mac')
     cfg = cfg_of(f)
-    rets = [n for n in cfg.nodes if n.kind == 'stmt' and isinstance(n.ast, ast.Return) and n.ast.value is not None]
+    rets = [n for n in cfg.nodes if n.kind == 'stmt' and isinstance(n.ast, ast.Return) and n.ast.value is not None
+            and not (isinstance(n.ast.value, ast.Constant) and n.ast.value.value is None)]
     ok_edges = []
     cmp_ = None
     for e, t in cfg.test_nodes.items():
@@ -43,7 +44,14 @@ def rule_dominance(report, prog):
         okk = args == ['data', 'self._sk', 'self._iv'] and norm(rets[0].ast.value) == 'data'
         report.check(okk, 'C20-R1', key(f.qname, 'the returned data is the data the MAC was computed over, under the session key and IV'),
                      f.loc(cmp_), 'MAC is computed over %s but %s is returned' % (args, norm(rets[0].ast.value)))
-    okk = bool(find(f.node, 'data, mac = (data[0:-16], data[-16:-8])')) and bool(find(f.node, 'block_list.append(tt3.BlockCode(129))'))
+    # the response is split at -16: everything in front is the data, octets -16..-9 the MAC (whatever the response is called)
+    split = [b for n_, b in find(f.node, 'data, mac = ($S[0:-16], $T[-16:-8])') if norm(b['S']) == norm(b['T'])]
+    src_ok = False
+    if len(split) == 1:
+        sname = norm(split[0]['S'])
+        src_ok = any(isinstance(a, ast.Assign) and norm(a.targets[0]) == sname and 'self.read_without_encryption(service_list, block_list)' == norm(a.value)
+                     for a in walk_no_nested(f.node))
+    okk = src_ok and bool(find(f.node, 'block_list.append(tt3.BlockCode(129))'))
     report.check(okk, 'C20-R1', key(f.qname, 'MAC block 81h is read with the data; data/MAC split at -16'), f.loc(),
                  'MAC block request / split changed')
     r = [x for x in walk_no_nested(f.node) if isinstance(x, ast.Raise) and 'authentication required' in norm(x)]
